@@ -136,6 +136,22 @@ Theorem timeout_status_by_first_done : forall fl h0 script sched k,
 Proof. exact timeout_kind_lemma. Qed.
 Print Assumptions timeout_status_by_first_done.
 
+(* outer_view.  What the middlewares in FRONT of the timeout handler record (the Code of their
+   response.WithCodeResponseWriter: breaker, log, metrics, trace) is the argument of the last
+   WriteHeader that reached their writer.  For every script and schedule: after the timeout
+   branch it is the timeout status — even when the handler's own status is already on the wire
+   because it flushed; after the done branch (no flush-through, no 1xx first) it is exactly the
+   status the client got; while ServeHTTP is pending it is still the initial 200 and nothing is
+   on the wire. *)
+Theorem outer_view : forall fl h0 script sched,
+  let s := run (init fl h0 script) sched in
+  (forall k, sst s = STimeoutRet k -> rcode (rw s) = timeout_code k) /\
+  (sst s = SDoneRet -> fl = false \/ has_flush script = false -> info_first fl (hexec s) = false ->
+   rres (rw s) = Some (rcode (rw s), rlive (rw s)) /\ rcode (rw s) = spec_status false (hexec s)) /\
+  (sst s = SWait -> fl = false \/ has_flush script = false -> rcode (rw s) = 200 /\ rres (rw s) = None).
+Proof. exact outer_view_lemma. Qed.
+Print Assumptions outer_view.
+
 (* the panic a script ends in does not depend on flushing or timing *)
 Theorem script_panic_is_spec : forall fl h0 acts,
   snd (href (start fl h0) acts) = spec_panic fl false acts.
@@ -338,8 +354,8 @@ Example ex_two_requests :
   let sched := [(0, EH); (0, ED KCancel); (0, ES BTimeout); (1, EH); (0, EH); (1, EH); (0, EH);
                 (1, EH); (1, EH); (1, ES BDone)]%nat in
   map rw (mrun (minit reqs) sched) =
-  [mkRW false [] (Some (499, [])) reason [];
-   mkRW false [(1, [5]); (2, [8])] (Some (201, [(1, [5]); (2, [8])])) [200] []].
+  [mkRW false [] (Some (499, [])) reason [] 499;
+   mkRW false [(1, [5]); (2, [8])] (Some (201, [(1, [5]); (2, [8])])) [200] [] 201].
 Proof. vm_compute. reflexivity. Qed.
 
 (* ================================================================== *)
@@ -463,7 +479,7 @@ Definition ex_sched_timeout : list ev :=
 Example ex_timeout :
   let s := run (init true ex_h0 ex_script) ex_sched_timeout in
   sst s = STimeoutRet KDeadline /\ hst s = HDone /\
-  rw s = mkRW true [(1, [5])] (Some (503, [(1, [5])])) reason [].
+  rw s = mkRW true [(1, [5])] (Some (503, [(1, [5])])) reason [] 503.
 Proof. vm_compute. repeat split. Qed.
 
 Example ex_late_write :
@@ -476,9 +492,9 @@ Proof. vm_compute. repeat split. Qed.
 Example ex_both_ready :
   let pre := [EH; EH; EH; EH; EH; EH; ED KCancel] in
   rw (run (init false ex_h0 ex_script) (pre ++ [ES BDone])) =
-    mkRW false [(1, [7]); (2, [9])] (Some (201, [(1, [7]); (2, [9])])) [200; 201; 202] [] /\
+    mkRW false [(1, [7]); (2, [9])] (Some (201, [(1, [7]); (2, [9])])) [200; 201; 202] [] 201 /\
   rw (run (init false ex_h0 ex_script) (pre ++ [ES BTimeout])) =
-    mkRW false [(1, [5])] (Some (499, [(1, [5])])) reason [].
+    mkRW false [(1, [5])] (Some (499, [(1, [5])])) reason [] 499.
 Proof. vm_compute. split; reflexivity. Qed.
 
 Example ex_ignores : ignores_ctx ex_script /\ spec_panic true false ex_script = None /\
@@ -497,7 +513,7 @@ Proof. vm_compute. split; reflexivity. Qed.
 Example ex_cut :
   let s := run (init true [] [AWrite [200]; ACheckCtx; AWrite [201]]) [EH; ED KCancel; EH; EH; ES BDone] in
   sst s = SDoneRet /\ hexec s = [AWrite [200]; ACheckCtx] /\
-  rw s = mkRW true [] (Some (200, [])) [200] [].
+  rw s = mkRW true [] (Some (200, [])) [200] [] 200.
 Proof. vm_compute. repeat split. Qed.
 
 (* Flush: the status the handler set goes out with the first Flush, later chunks follow;
@@ -515,13 +531,14 @@ Proof. vm_compute. repeat split. Qed.
 Example ex_flush_then_timeout :
   let s := run (init true ex_h0 ex_flush_script) [EH; EH; EH; EH; EH; EH; ED KDeadline; ES BTimeout; EH; EH; EH] in
   sst s = STimeoutRet KDeadline /\ hst s = HDone /\
-  rw_view (rw s) = ([], Some (404, [(1, [7])]), [200] ++ reason).
+  rw_view (rw s) = ([], Some (404, [(1, [7])]), [200] ++ reason) /\
+  rcode (rw s) = 503.     (* the client got 404 + ..., the breaker / log / metrics in front record the 503 *)
 Proof. vm_compute. repeat split. Qed.
 
 Example ex_timeout_then_flush :
   let s := run (init true ex_h0 ex_flush_script) [EH; EH; EH; ED KCancel; ES BTimeout; EH; EH; EH; EH; EH; EH] in
   sst s = STimeoutRet KCancel /\ hst s = HDone /\
-  rw s = mkRW true [(1, [5])] (Some (499, [(1, [5])])) reason [].
+  rw s = mkRW true [(1, [5])] (Some (499, [(1, [5])])) reason [] 499.
 Proof. vm_compute. repeat split. Qed.
 
 (* the same script on a writer that is no Flusher: Flush is a no-op, strict all-or-nothing *)
